@@ -1,11 +1,42 @@
-"""c12 — scheduler property; see sched_common.py."""
+"""C12 - data-race freedom: access discipline proved on the model; the tie adds the Go race
+detector over the scheduler harness (hooked executions and concurrent Enqueue)."""
+import json
+import re
+
+import common
 import sched_common
 
-DEP_FILES = ["SchedModel.v", "SchedLemmas.v", "SchedInv.v", "SchedInv2.v", "SchedProps.v", "SchedInv3.v", "SchedInv4.v", "SchedTheorems.v", "SchedLive.v"]
+DEP_FILES = ["SchedModel.v", "SchedLemmas.v", "SchedInv.v", "SchedInv2.v", "SchedProps.v", "SchedInv3.v",
+             "SchedInv4.v", "SchedTheorems.v", "SchedLive.v", "SchedRace.v"]
 PID = "C12"
 
 
 def run(chk):
     chk.recheck_proofs()
-    sched_common.apply(chk, PID, which=("full" if PID == "C19" else "core"))
-    chk.assumptions += sched_common.ASSUMPTIONS.get(PID, []) + sched_common.ASSUMPTIONS["*"]
+    sched_common.apply(chk, PID, which="core")
+    # race detector over the real scheduler
+    exe = common.go_build("schedrun", race=True)
+    nexec = 250 if chk.tier == "quick" else 6000
+    nconc = 150 if chk.tier == "quick" else 4000
+    env = dict(common.GOENV)
+    env["GORACE"] = "halt_on_error=0 exitcode=0"
+    rc, out, err = common.run([exe, "-seed", str(chk.seed + 77), "-count", str(nexec), "-conc", str(nconc), "-maxjobs", "20"],
+                              env=env, timeout=3000, check=False)
+    races = re.findall(r"WARNING: DATA RACE.*?(?==================)", err, re.S)
+    recs = [json.loads(l) for l in out.split("\n") if l.strip()]
+    conc = [r for r in recs if r.get("kind") == "conc"]
+    chk.count(len(recs))
+    chk.cov["race_detector"] = {"executions_with_hooks": len(recs) - len(conc), "concurrent_enqueue_executions": len(conc),
+                                "reports": len(races)}
+    if races:
+        chk.violate("the race detector reports a data race in the scheduler: " + races[0].split("\n")[1][:160],
+                    {"race_report": races[0][:6000], "harness": "schedrun (-race) -seed %d -count %d -conc %d" % (chk.seed + 77, nexec, nconc)})
+    for r in conc:
+        if not r["ran_once"] or r["wait_err"]:
+            chk.violate("concurrent Enqueue: not every job ran exactly once, or Wait failed: %s" % r, {"record": r})
+            break
+    if conc:
+        chk.sample({"concurrent_enqueue": conc[0]})
+    chk.assumptions += sched_common.ASSUMPTIONS["*"] + [
+        "Go memory model: a channel send happens before the corresponding receive completes; close before a receive that returns because of it (taken as given)",
+        "that no shared location exists besides the modelled ones is established by the race detector runs, not by a theorem (partial)"]
